@@ -462,6 +462,32 @@ def run(ctx):
         adr = [a for a in fx.find(target="self.csr.adr") if a.state and a.state[0] == info.id and a.v != "0"]
         ok = len(adr) == 1 and adr[0].v.startswith("self.wishbone.adr[") and adr[0].v.endswith(":]")
         ctx.ob("A5", WB, "Wishbone2CSR", f"{tag}: csr.adr = wishbone.adr[shift:]", ok, "" if ok else f"{[a.v for a in adr]}")
+        # ... and the shift is the one that turns the master's address into the index of its own data word: 0 on a word-addressed
+        # bus, log2(bus bytes) on a byte-addressed one, whatever the CSR side's width is (bound evaluated by the checker's interpreter)
+        if ok:
+            from .. import pyconst as _pc7
+            import math as _m7
+            v7 = fx.expand(adr[0].value, depth=6)
+            low7 = v7.slice.lower if isinstance(v7, ast.Subscript) and isinstance(v7.slice, ast.Slice) else None
+            bad7 = None
+            n7 = 0
+            for addressing in ("word", "byte"):
+                for wdw in (32, 64):
+                    for cdw in (8, 32):
+                        env7 = {"self": _pc7.NS(wishbone=_pc7.NS(data_width=wdw, addressing=addressing, adr_width=30), csr=_pc7.NS(data_width=cdw, address_width=14)),
+                                "log2_int": _pc7.Native(lambda n, need_pow2=True: int(_m7.log2(n))), "register": reg}
+                        try:
+                            got7 = 0 if low7 is None else _pc7.Interp(env7, exact=True).ev(low7)
+                        except Exception as ex7:      # noqa
+                            got7 = f"<{type(ex7).__name__}>"
+                        n7 += 1
+                        want7 = 0 if addressing == "word" else int(_m7.log2(wdw // 8))
+                        if got7 != want7 and bad7 is None:
+                            bad7 = f"{addressing}-addressed {wdw}-bit bus, {cdw}-bit CSR side: csr.adr = wishbone.adr[{got7}:], the word index of the " \
+                                   f"master's address is wishbone.adr[{want7}:]: consecutive bus words land {2 ** (want7 - got7) if isinstance(got7, int) and got7 <= want7 else '?'} " \
+                                   f"CSR locations apart, distinct words alias or fall outside the bank"
+            ctx.ob("A5", WB, "Wishbone2CSR", f"{tag}: address shift = 0 (word addressing) / log2(bus bytes) (byte addressing), 8 configurations", bad7 is None and n7 == 8,
+                   bad7 or "", adr[0].line)
         first = [t for t in fx.trans if t.fsm == info.id and t.src == info.reset_state]
         ok = len(first) == 1 and q.EQ(first[0], B.from_expr("self.wishbone.cyc & self.wishbone.stb"))
         ctx.ob("A5", WB, "Wishbone2CSR", f"{tag}: access starts only on cyc & stb", ok, "" if ok else f"{[t.gtext() for t in first]}")
